@@ -1056,12 +1056,15 @@ class yanny(OrderedDict):
         #
         # Find structure & enumeration definitions & strip them out
         #
-        self._symbols['struct'] = re.findall(r'typedef\s+struct\s*\{[^}]+\}\s*\w+\s*;',
-                                             lines)
-        self._symbols['enum'] = re.findall(r'typedef\s+enum\s*\{[^}]+\}\s*\w+\s*;',
-                                           lines)
-        lines = re.sub(r'typedef\s+struct\s*\{[^}]+\}\s*\w+\s*;', '', lines)
-        lines = re.sub(r'typedef\s+enum\s*\{[^}]+\}\s*\w+\s*;', '', lines)
+        # A definition starts a line; the same words inside a data row or a
+        # keyword value (e.g. in a quoted string) are just text.
+        #
+        structre = r'(?m)^[ \t]*(typedef\s+struct\s*\{[^}]+\}\s*\w+\s*;)'
+        enumre = r'(?m)^[ \t]*(typedef\s+enum\s*\{[^}]+\}\s*\w+\s*;)'
+        self._symbols['struct'] = re.findall(structre, lines)
+        self._symbols['enum'] = re.findall(enumre, lines)
+        lines = re.sub(structre, '', lines)
+        lines = re.sub(enumre, '', lines)
         #
         # Interpret the structure definitions
         #
